@@ -48,13 +48,16 @@ CommandSignature ShellCommand::getSignature() const {
   if (!signatureData.empty()) {
     code = code.combine(signatureData);
   } else {
+    code = code.combine(args.size());
     for (const auto& arg: args) {
       code = code.combine(arg);
     }
+    code = code.combine(env.size());
     for (const auto& entry: env) {
       code = code.combine(entry.first);
       code = code.combine(entry.second);
     }
+    code = code.combine(depsPaths.size());
     for (const auto& path: depsPaths) {
       code = code.combine(path);
     }
